@@ -21,7 +21,17 @@ fn discrete(n: usize, s: Vec<usize>, t: Vec<usize>) -> POh<u32, u64> {
 
 pub fn prime(ctx: &mut Ctx, r: &mut Rng) {
     ctx.count("primer:runs");
+    // the four parts in a rotated order: a later part must not always be the one that (in a changed library) happens
+    // to tidy up what an earlier one left behind
+    let first = r.below(4);
+    for k in 0..4 {
+        part(ctx, r, (first + k) % 4);
+    }
+}
+
+fn part(ctx: &mut Ctx, r: &mut Rng, which: usize) {
     let round = r.below(4);
+    if which == 0 {
     // (1) a strict composition over more than 2^16 nodes that glues low-numbered nodes (connected components /
     //     coequalizer / scatter of labels at that size), in both orientations
     let res = guard(|| {
@@ -39,6 +49,8 @@ pub fn prime(ctx: &mut Ctx, r: &mut Rng) {
     if res.is_err() {
         ctx.count("primer:library_panics");
     }
+    }
+    if which == 1 {
     // (2) size ladders of the index-producing primitives just above one and two pages of 4096 entries
     let res = guard(|| {
         let mut total = 0usize;
@@ -56,6 +68,8 @@ pub fn prime(ctx: &mut Ctx, r: &mut Rng) {
     if res.is_err() {
         ctx.count("primer:library_panics");
     }
+    }
+    if which == 2 {
     // (3) coequalizers: a long chain in descending order, a star on node 0, at a few thousand points
     let res = guard(|| {
         let n = 2_000 + r.below(3_000);
@@ -70,6 +84,8 @@ pub fn prime(ctx: &mut Ctx, r: &mut Rng) {
     if res.is_err() {
         ctx.count("primer:library_panics");
     }
+    }
+    if which == 3 {
     // (4) the lax side: a tensor whose right operand carries a few dozen pending pairs, quotients of both sizes
     let res = guard(|| {
         let n = 40 + r.below(60);
@@ -93,6 +109,7 @@ pub fn prime(ctx: &mut Ctx, r: &mut Rng) {
     });
     if res.is_err() {
         ctx.count("primer:library_panics");
+    }
     }
 }
 
